@@ -94,3 +94,12 @@ theorem sat_of_ok {m : M α β} {w w' : World α} {b : β} {Q : β → World α 
 theorem sat_of_thrown {m : M α β} {w w' : World α} {e : Exc} {Q : β → World α → Prop} {E : Exc → World α → Prop}
     (h : (m w).sat Q E) (hr : m w = .thrown e w') : E e w' := by rw [hr] at h; exact h
 end SvModel
+
+namespace SvModel
+variable {α β γ δ : Type}
+theorem bind_assoc_run (m : M α β) (g : β → M α γ) (f : γ → M α δ) (w : World α) :
+    ((m >>= g) >>= f) w = (m >>= fun b => g b >>= f) w := by
+  rw [bind_run, bind_run, bind_run]
+  cases m w <;> rfl
+theorem pure_bind_run (b : β) (f : β → M α γ) (w : World α) : ((pure b : M α β) >>= f) w = f b w := rfl
+end SvModel
